@@ -922,4 +922,34 @@ theorem C01_config_disable_enable (s : Cfg.State) (en : Cfg.Entry) (hne : s.sour
     simp [Cfg.setProps, hE, hdl]
   · simp [Cfg.setProps, hE, hdl]
 
+/-- **Re-enabling cancels a pause.**  After an accepted `POST /control/protection`
+with `enabled = true` (duration absent or 0) protection is on, whatever pause
+was pending and whenever the request arrives; and an accepted switch-off
+without duration is permanent (no deadline is left behind). -/
+theorem C01_reenable_cancels_pause (s : Cfg.State) :
+    (Cfg.setProtection s true 0).1 = 200 ∧
+    protectionOn (Cfg.setProtection s true 0).2.conf = true ∧
+    (∀ w, protectionOn (Cfg.wait (Cfg.setProtection s true 0).2 w).conf = true) ∧
+    (∀ w, protectionOn (Cfg.wait (Cfg.setProtection s false 0).2 w).conf = false) := by
+  simp [Cfg.setProtection, Cfg.wait, Cfg.State.conf, Cfg.State.pause, protectionOn]
+
+/-- a pause is off until its deadline and on from then, without any further request -/
+theorem C01_pause_runs_out (s : Cfg.State) (d w : Nat) (hd : d > 0) :
+    protectionOn (Cfg.wait (Cfg.setProtection s false d).2 w).conf = decide (d ≤ w) := by
+  have hd' : ¬(d > 0 ∧ false = true) := by simp
+  simp only [Cfg.setProtection, hd', if_false, hd, if_true, Cfg.wait, Cfg.State.conf, Cfg.State.pause, protectionOn]
+  by_cases h : s.now + w < s.now + d
+  · have : ¬ d ≤ w := by omega
+    simp [h, this]
+  · have : d ≤ w := by omega
+    simp [h, this]
+
+/-- **Sequence version of `C01_model_meets_spec`.**  In every state of a
+configuration sequence — whatever admin calls, protection switches, pauses and
+waits led to it — a query answered by the model under the rules in force
+satisfies the C01 monitor. -/
+theorem C01_config_step_meets_spec (s : Cfg.State) (block allow : List Rule) (u : Upstream) (q : Query) :
+    C01.specOK (ruleEngines block allow) s.conf u q (handle (ruleEngines block allow) s.conf u q) = true :=
+  C01_rules_model_meets_spec block allow s.conf u q
+
 end AGH.Filter
